@@ -11,7 +11,8 @@ m = {"merge iterator adapter":("D5",["C11","C08"]), "MergeCompact returns":("D6"
  "removes every WAL file":("D15",["C01","C02","C13","C17"]), "compacting tables without records":("D16",["C01","C06"]),
  "flushed into a temporary directory":("D13",["C02","C10"]),
  "over-long varint":("D17",["C12","C04","C09"]),
- "disk index binary search no longer":("D18",["C03"]), "SeekNext skips a marker":("D19",["C04","C03"])}
+ "disk index binary search no longer":("D18",["C03"]), "SeekNext skips a marker":("D19",["C04","C03"]),
+ "removes the WAL files oldest first":("D20",["C10","C02"])}
 # a later fix: commit that refines an earlier one has to be reverted together with it (newest first)
 also = {"D15": ["WAL sweep after a flush stays inside"]}
 out = os.path.join(os.path.dirname(os.path.abspath(__file__)), "revert")
